@@ -111,6 +111,25 @@ pub fn judge(ctx: &Ctx, l: &mut Local, p: &Params, site: Site, date: NaiveDate) 
         }
         _ => {}
     }
+    // what the policy is not supposed to take: under the Fajr/Isha-restricted policies the other four
+    // times, and under the 'invalid' variants every angle-defined Fajr/Isha that exists, stay as they are
+    let restricted = !matches!(pol, NearestLatitudeAllPrayersAlways(_) | NearestGoodDayAllPrayersAlways);
+    let invalid_variant = crate::c08::is_invalid_variant(pol);
+    if restricted {
+        for pr in [Shurooq, Dhuhr, Asr, Maghrib] {
+            if r[&pr] != r0[&pr] {
+                ctx.violation("restricted_policy_takes_exactly_fajr_and_isha", &k(pr), case().to_value(), json!({"prayer": format!("{:?}", pr), "policy": format!("{:?}", pol), "conventional": fmt_r(&r0), "with_policy": fmt_r(&r)}));
+            }
+        }
+    }
+    if invalid_variant {
+        for pr in [Fajr, Isha] {
+            let interval_defined = (pr == Fajr && fi != 0.0) || (pr == Isha && ii != 0.0);
+            if !interval_defined && r_ang[&pr].is_ok() && r[&pr] != r0[&pr] {
+                ctx.violation("invalid_variant_takes_only_what_is_missing", &k(pr), case().to_value(), json!({"prayer": format!("{:?}", pr), "policy": format!("{:?}", pol), "conventional": fmt_r(&r0), "with_policy": fmt_r(&r)}));
+            }
+        }
+    }
     if engaged {
         l.nontrivial += 1;
         if ctx.want_sample() && date.format("%m-%d").to_string() == "06-21" {
